@@ -677,6 +677,9 @@ type c14Stress struct {
 	Questions []c14Question `json:"questions"`
 	DelayMs   int           `json:"delay_ms"`
 	Rounds    int           `json:"rounds"`
+	Cleaner   bool          `json:"cache_cleaner_running"` // maintenance interleaved with the calls: a goroutine loops FailoverGroup.CleanCache()
+	Sweep     bool          `json:"sweep"`                 // every caller asks EVERY question (starting at its own offset), Rounds times
+	CleanerRuns int         `json:"cleaner_runs,omitempty"`
 	SharedSlices bool       `json:"shared_slices"` // two range questions, same expr+step, different lookback (regression scenario of fix fb76e32)
 	// observed
 	ServerMaxTotal int            `json:"server_side_max_total_inflight"`
@@ -779,10 +782,41 @@ func c14RunStress(st *c14Stress, seed int64) {
 			defer wg.Done()
 			<-start
 			for k := 0; k < st.Rounds; k++ {
+				if st.Sweep {
+					for j := range st.Questions {
+						c14AskOnce(context.Background(), fg, st.Questions[(j+ci*7)%len(st.Questions)])
+					}
+					continue
+				}
 				results[ci] = append(results[ci], c14AskOnce(context.Background(), fg, st.Questions[qi]))
 			}
 		}(ci, qi)
 	}
+	// maintenance interleaved with the calls: the cache cleaner (cacheCleaner's ticker / CleanCache) runs while callers ask.
+	// Nothing expires during a run (TTLs are minutes, maxStale an hour), so gc must not lose or evict anything.
+	stopCleaner := make(chan struct{})
+	cleanerDone := make(chan int, 1)
+	if st.Cleaner {
+		go func() {
+			n := 0
+			for {
+				select {
+				case <-stopCleaner:
+					cleanerDone <- n
+					return
+				default:
+					fg.CleanCache()
+					n++
+				}
+			}
+		}()
+	}
+	defer func() {
+		if st.Cleaner {
+			close(stopCleaner)
+			st.CleanerRuns = <-cleanerDone
+		}
+	}()
 	close(start)
 	finished := make(chan struct{})
 	go func() { wg.Wait(); close(finished) }()
@@ -906,6 +940,26 @@ func c14GenStress(r *rand.Rand, id int, directed int) *c14Stress {
 		}
 		return st
 	}
+	if directed == 3 {
+		// the cache cleaner runs while many callers sweep over many distinct questions several times: within the run every
+		// identical request may be answered successfully at most once (nothing expires: TTLs are minutes)
+		st.Pool = []int{2, 4, 8}[r.Intn(3)]
+		st.DelayMs = 0
+		st.Rounds = 3
+		st.Cleaner, st.Sweep = true, true
+		for i := 0; i < 150; i++ {
+			st.Questions = append(st.Questions, c14Question{Kind: "query", Arg: fmt.Sprintf("sweep_metric_%d", i)})
+		}
+		for i := 0; i < 12; i++ {
+			st.Questions = append(st.Questions, c14Question{Kind: "metadata", Arg: fmt.Sprintf("sweep_meta_%d", i)})
+		}
+		st.Questions = append(st.Questions, c14Question{Kind: "config"}, c14Question{Kind: "flags"}, c14Question{Kind: "range", Arg: "sweep_range", Lookback: "5h", Step: "1m"})
+		for i := 0; i < 6; i++ {
+			st.Callers = append(st.Callers, 0)
+		}
+		return st
+	}
+	st.Cleaner = r.Intn(3) == 0
 	nq := 1 + r.Intn(4)
 	if r.Intn(4) == 0 {
 		nq = 5 + r.Intn(6) // many distinct questions at once: the pool, not the key lock, is what bounds the requests
@@ -1063,6 +1117,10 @@ func runC14(args []string) int {
 	id++
 	stress = append(stress, c14GenStress(r, id, 2))
 	id++
+	for i := 0; i < 2; i++ {
+		stress = append(stress, c14GenStress(r, id, 3))
+		id++
+	}
 	for i := 0; i < nStress; i++ {
 		stress = append(stress, c14GenStress(r, id, 0))
 		id++
@@ -1090,11 +1148,18 @@ func runC14(args []string) int {
 		}
 		rep.count(fmt.Sprintf("stress/%d/%v/%v/%d", st.Pool, st.Callers, st.Questions, st.DelayMs), shares)
 		rep.hist("stress_runs")
+		if st.Cleaner {
+			rep.hist("stress_with_cache_cleaner_running")
+		}
 		rep.hist(fmt.Sprintf("stress_pool:%d", st.Pool))
 		rep.hist(fmt.Sprintf("stress_max_inflight_reached_pool:%v", st.MaxTotal == st.Pool))
 		rep.hist(fmt.Sprintf("stress_some_ask_served_without_request:%v", st.Requests < len(st.Callers)*st.Rounds))
 		if bad := c14StressOracle(st); len(bad) > 0 {
-			what := fmt.Sprintf("stress pool=%d callers=%d questions=%v: %s", st.Pool, len(st.Callers), st.Questions, strings.Join(bad, "; "))
+			qs := fmt.Sprint(st.Questions)
+			if len(st.Questions) > 8 {
+				qs = fmt.Sprintf("[%d distinct questions: %v ...]", len(st.Questions), st.Questions[:3])
+			}
+			what := fmt.Sprintf("stress pool=%d callers=%d cleaner=%v sweep=%v questions=%s: %s", st.Pool, len(st.Callers), st.Cleaner, st.Sweep, qs, strings.Join(bad, "; "))
 			if st.SharedSlices {
 				sharedHit++
 			}
